@@ -197,13 +197,76 @@ Print BAD.
 """
 
 
+def url_section(ctx, res):
+    """the same configuration fetched from a URL: the format is told by the Content-Type (application/json, with or without parameters) or by the
+    path's extension, and is YAML otherwise"""
+    import http.server
+    import threading
+    doc = {"variables": {"GV": "a/b"},
+           "tasks": {"t1": {"command": ['echo "one/two {{.GV}}" >> "$PROJ/out"'], "env": {"P": "x/y"}, "timeout": "30s"},
+                     "t2": {"command": ['echo "P=$P" >> "$PROJ/out"', 'echo done >> "$PROJ/out"'], "env": {"P": "q/r"}, "allow_failure": True}},
+           "pipelines": {"p": [{"task": "t1"}, {"task": "t2", "depends_on": ["t1"]}]}}
+    js = fmtlib.serialise(doc, "json").replace("/", "\\/")          # `\/` is a legal JSON escape (and not a YAML one)
+    served = {"/api/config": ("application/json; charset=utf-8", js), "/api/plain": ("application/json", js), "/x/cfg.json": ("text/plain", js),
+              "/x/cfg.yaml": ("text/plain; charset=utf-8", fmtlib.serialise(doc, "yaml")), "/x/noext": ("", fmtlib.serialise(doc, "yaml")),
+              "/x/cfg.toml": ("application/octet-stream", fmtlib.serialise(doc, "toml"))}
+
+    class H(http.server.BaseHTTPRequestHandler):
+        def do_GET(self):
+            ct, body = served.get(self.path, (None, None))
+            if body is None:
+                self.send_response(404)
+                self.end_headers()
+                return
+            self.send_response(200)
+            if ct:
+                self.send_header("Content-Type", ct)
+            self.end_headers()
+            self.wfile.write(body.encode())
+
+        def log_message(self, *a):
+            pass
+    try:
+        srv = http.server.ThreadingHTTPServer(("127.0.0.1", 0), H)
+    except OSError as e:
+        res.extra["url_section"] = "skipped: no loopback server (%s)" % e
+        return
+    th = threading.Thread(target=srv.serve_forever, daemon=True)
+    th.start()
+    base = "http://127.0.0.1:%d" % srv.server_address[1]
+    cmds = [["list"], ["--raw", "run", "task", "t1"], ["--raw", "run", "task", "t2"], ["--raw", "run", "pipeline", "p"], ["show", "t1"]]
+    jobs = [{"id": i * len(cmds) + k, "files": {}, "argv": ["-c", base + path] + cmd, "keep": ["out"], "timeout": 20, "path": path, "cmd": " ".join(cmd)}
+            for i, path in enumerate(sorted(served)) for k, cmd in enumerate(cmds)]
+    out = clilib.run_cli(ctx.workdir + "/url", jobs, timeout=20)
+    srv.shutdown()
+    proj = {}
+    for j in jobs:
+        r = out[j["id"]]
+        txt = r.get("out") or ""
+        if j["cmd"].startswith("--raw"):
+            txt = ""                                   # (the summary carries durations; what the commands wrote is in the file)
+        proj.setdefault(j["path"], {})[j["cmd"]] = (r["rc"], txt, r["files"].get("out"), bool(r["timeout"] or clilib.crashed(r)))
+    ref = proj["/x/cfg.yaml"]
+    for path in sorted(served):
+        res.evaluations += 1
+        res.count("url")
+        res.nontrivial_keys.add("url" + path)
+        case = {"kind": "url", "path": path, "content_type": served[path][0], "body": served[path][1]}
+        if any(v[3] for v in proj[path].values()):
+            res.violations.append({"class": None, "what": "loading a configuration from a URL crashed or hung", "case": case, "observed": str(proj[path])[:1200]})
+        elif proj[path] != ref or ref["list"][0] != 0:
+            cmd = next((c for c in ref if proj[path][c] != ref[c]), "list")
+            res.violations.append({"class": None, "what": "the same configuration fetched from a URL as %s (Content-Type %r) behaves differently from the YAML one (`taskctl %s`)" % (
+                                   path, served[path][0], cmd), "case": case, "observed": {"this": proj[path][cmd], "yaml": ref[cmd]}})
+
+
 def run(ctx):
     res = vlib.Result()
     res.rule = ("scalars (strings incl. empty / numeric-looking, booleans, integers incl. 2^53 and beyond, decimals) at every typed position (env, task variables, top-level variables: string; "
                 "allow_failure: bool; timeout: duration; command, depends_on: string-or-list): observed agreement yaml=json / json=toml compared with the model's; "
                 "generated configurations over every documented key (string-or-list fields in both forms, durations as string and number, booleans as bool / number / "
                 "string, nested maps, contexts, watchers, nested pipelines): list / show / graph / run of every task and pipeline compared pairwise between the "
-                "three files.  distinct = distinct abstract configuration; non-trivial = all of them (three files each).")
+                "three files; the same configuration fetched from a local URL under several Content-Types and path extensions.  distinct = distinct abstract configuration; non-trivial = all of them (three files each).")
     thorough = ctx.tier == "thorough"
     rng = vlib.rng_for(ctx.seed, "C16")
     # ---- scalars at typed positions, against the model ----
@@ -272,5 +335,7 @@ def run(ctx):
                     res.violations.append({"class": K3 if has_big(cf) and False else None, "what": "`taskctl %s` differs between the %s and the %s file of the same configuration" % (cmd.split(" ")[0] if not cmd.startswith("--raw") else "run", a, b),
                                            "case": case, "observed": {"command": cmd, a: o[a].get(cmd), b: o[b].get(cmd)}})
                     break
+    if not ctx.replay_cases or any(c.get("kind") == "url" for c in ctx.replay_cases):
+        url_section(ctx, res)
     res.samples = [{"val": sc[0]["val"], "pos": sc[0]["pos"]}] + ([{"conf": confs[0]}] if not ctx.replay_cases else [])
     return res
